@@ -33,7 +33,8 @@ for d in sys.argv[1:]:
         failed = sum(int(x[2]) for x in m)
         res["suite_with_patch"] = {"passed": passed, "failed": failed, "wall_s": round(w)}
         demo_cmd = meta.get("demo_cmd", "")
-        demo_cmd = re.sub(r"cd\s+/tmp/mut/C\d+\s*(&&|;)\s*", "", demo_cmd)
+        m2 = re.search(r"(cargo\s+(test|run)\b.*)$", demo_cmd)
+        demo_cmd = m2.group(1) if m2 else demo_cmd
         demo_cmd = demo_cmd.replace("/tmp/mut/%s" % meta.get("property", "C00"), wt)
         res["demo_cmd"] = demo_cmd
         rc, out, _ = run("git apply %s/demo.diff" % d, wt)
